@@ -21,6 +21,7 @@ func runC14(c *an.Ctx) string {
 	r144Required(c)
 	r074Walkers(c)
 	r049MustValidate(c)
+	r147EndpointAccessors(c)
 	return explanationC14
 }
 
@@ -288,4 +289,26 @@ func r144Required(c *an.Ctx) {
 		})
 		c.Check(ok, rule, f.Name+"#required", f.Decl.Pos(), "schema.required = validation.Required filtered only by MustGenerate", strings.Join(why, "; ")+" (or no loop over Validation.Required found)")
 	}
+}
+
+// r147EndpointAccessors (R14.7): the required flags, types and names of params,
+// headers and cookies that the server templates enforce and the OpenAPI builders
+// document both come from the accessors of expr.HTTPEndpointExpr (QueryParams,
+// PathParams, Headers …). None of the deviance lints may fire in them: a lookup
+// by the raw "attr:element" pair, a stale flag, an abandoned loop there makes
+// the two consumers disagree on what is required.
+func r147EndpointAccessors(c *an.Ctx) {
+	const rule = "R14.7"
+	n := 0
+	for _, f := range c.AllFuncs("expr") {
+		if !strings.HasPrefix(f.Name, "expr.HTTPEndpointExpr.") {
+			continue
+		}
+		n++
+		for _, h := range an.AllLints(f) {
+			c.Failf(rule, h.Construct, h.Pos, "%s", h.Msg)
+		}
+	}
+	c.Okf(rule, "expr.HTTPEndpointExpr#accessors", "%d methods: none of the deviance lints fires", n)
+	c.Floor(rule, n, 10, "methods of HTTPEndpointExpr")
 }
